@@ -19,6 +19,83 @@ def load_mstate(name):
     return hdr, edges
 
 
+def cluster_of(family, cid, got, gold):
+    try:
+        return _cluster_of(family, cid, got, gold)
+    except Exception:
+        return family + ": other"
+
+
+def _cluster_of(family, cid, got, gold):
+    """Root-cause bucket of a failing case (used only for grouping known findings)."""
+    import re
+    if "<hole>" in gold and "<hole>" not in got:
+        return "array holes are stored as undefined (dense array representation)"
+    if "\\ud83d" in gold and "\\ud83d" not in got:
+        return "strings are not sequences of UTF-16 code units (astral characters / surrogate escapes)"
+    if got.startswith("death") or got.startswith("hang") or got.startswith("panic"):
+        m = re.search(r":([A-Za-z.]+)[\(=][^:]*$", cid)
+        return "%s: process-level failure (%s) in %s" % (family, got.split("|")[0], m.group(1) if m else re.sub(r"[0-9]+", "N", cid)[:40])
+    if family == "expr":
+        m = re.match(r"expr:(\w+):(.*)$", cid)
+        kind, body = m.group(1), m.group(2)
+        if kind == "bin":
+            for o in [" >>> ", " === ", " !== ", " ** ", " == ", " != ", " <= ", " >= ", " << ", " >> ", " && ", " || ", " ?? ", " + ", " - ", " * ", " / ", " % ", " < ", " > ", " & ", " | ", " ^ ", " , "]:
+                if o in body:
+                    return "expr: binary operator %s" % o.strip()
+        if kind == "asg":
+            return "expr: compound assignment %s" % re.search(r" (\S+=) ", body).group(1)
+        if kind == "upd":
+            return "expr: update expression %s on non-number operand" % body.split(":")[0]
+        return "expr: unary %s" % body[:7]
+    if family == "forms":
+        from . import gen01
+        return "forms: " + gen01.FORMS[int(cid.split(":")[1])]
+    if family.startswith("flow"):
+        if got.startswith("budget"):
+            return "flow: loop never terminates (continue inside switch/labelled block)"
+        gt = got.split("|")[1] if "|" in got else got
+        rt = gold.split("|")[1] if "|" in gold else gold
+        a, b = gt.split(","), rt.split(",")
+        extra = sorted(set(re.sub(r"[0-9_]+", "", t) for t in a) - set(re.sub(r"[0-9_]+", "", t) for t in b))
+        if len(a) > len(b) and all(t.startswith("s:fi") or t.startswith("fi") for t in a[len(b) - 1:] if t not in b[-2:]):
+            return "flow: finally block runs a second time after a caught exception"
+        ca = [re.sub(r"[0-9_]+", "", t) for t in a]
+        cb = [re.sub(r"[0-9_]+", "", t) for t in b]
+        if ca == cb:
+            return "flow: block scope left installed by break/continue (shadowing let leaks)"
+        return "flow: control transfer differs (extra %s)" % ",".join(extra)[:40]
+    if family == "mstate":
+        return "mstate: " + cid
+    if family == "lib":
+        parts = cid.split(":")
+        if parts[1] == "script":
+            return "lib script: " + parts[2]
+        rest = cid[len("lib:" + parts[1]) + 1:]
+        m = re.search(r":([A-Za-z.]*?[A-Za-z]+)[\(=]", ":" + rest.split(":", 1)[-1])
+        name = m.group(1) if m else re.sub(r"^.*:", "", rest)[:24]
+        if re.search(r":\[[^\]]*\]$", cid):
+            name = "index access [non-index key]"
+        return "lib %s.%s" % (parts[1], name)
+    if family == "scope":
+        parts = cid.split(":")
+        return "scope: %s %s" % (parts[1], parts[3] if parts[1] == "fn" else parts[2] if parts[1] == "loop" else parts[3])
+    if family == "pattern":
+        return "pattern: " + cid.split(":", 2)[2].split("=")[0] + (" (" + cid.split(":")[1] + ")" if got.startswith("err||SyntaxError") else "")
+    if family == "class":
+        for feat, name in (("in-private", "class: '#x in obj' brand check is a SyntaxError"), ("new-target", "class: new.target in a constructor is a SyntaxError"), ("symbol-iter", "class: generator method named [Symbol.iterator] is not iterable")):
+            if feat in cid:
+                return name
+        return "class: " + cid.split(":")[-1]
+    if family == "gen":
+        from . import gen01
+        return "generator protocol, body: " + gen01.GEN_BODIES[int(cid.split(":")[1])][:60]
+    if family == "expr2":
+        m = re.search(r"\) (\S+) ", cid)
+        return "expr2: nested operators (outer %s)" % (m.group(1) if m else "?")
+    return family
+
+
 def run(tier, seed, only=None):
     chk = core.Check(PID, tier, seed, "model_checking")
     fams = list(gen01.QUICK_FAMILIES) + (gen01.THOROUGH_ONLY if tier == "thorough" else [])
@@ -43,7 +120,7 @@ def run(tier, seed, only=None):
             if not prog.golden_match(got, g):
                 bad += 1
                 chk.fail(f + "\0" + c.src, got, "%s: tsrun %s, reference %s" % (c.id, got[:150], g[:150]),
-                         {"family": f, "id": c.id, "src": c.src, "expected": g})
+                         {"family": f, "id": c.id, "src": c.src, "expected": g}, cluster=cluster_of(f, c.id, got, g))
         perfam[f] = {"cases": len(sel), "disagree": bad}
         samples.append({"family": f, "id": sel[len(sel) // 2][0].id})
     # M-state: reference-defined state graph; every edge replayed on tsrun
@@ -74,7 +151,8 @@ def run(tier, seed, only=None):
             bad += 1
             stm = [gen01.STATE_SIGMA[k] for k in h]
             chk.fail("mstate\0" + c.src, got, "mstate after [%s]: tsrun %s, reference %s" % ("; ".join(stm), got[:120], e["dump"][:120]),
-                     {"family": "mstate", "id": c.id, "src": c.src, "expected": "ok|s:" + e["dump"] + "||[]", "history": stm})
+                     {"family": "mstate", "id": c.id, "src": c.src, "expected": prog.ALT.join("ok|s:" + d + "||[]" for d in e["dump"].split(prog.ALT)), "history": stm},
+                     cluster=cluster_of("mstate", stm[-1], got, e["dump"]))
         states, transitions = hdr["states"], len(edges)
         perfam["mstate"] = {"cases": len(edges), "disagree": bad, "blocked_edges": blocked, "graph_depth": hdr["depth"], "tree_depth": hdr["treedepth"]}
         samples.append({"family": "mstate", "history": [gen01.STATE_SIGMA[k] for k in edges[len(edges) // 2]["hist"]]})
